@@ -25,6 +25,7 @@ cc1 gcc2 gcc -O1 -g -gdwarf-2 -gstrict-dwarf
 cc1 gcc3 gcc -O2 -g -gdwarf-3
 cc1 gcc4 gcc -O2 -g3 -gdwarf-4 -fdebug-types-section -gpubnames
 cc1 gcc5 gcc -O2 -g3 -gdwarf-5 -gpubnames
+cc1 gcc4_types gcc -O2 -g -gdwarf-4 -fdebug-types-section
 cc1 clang4 clang -O2 -g -gdwarf-4 -gpubnames
 cc1 clang5 clang -O2 -g -gdwarf-5 -gpubnames -fdebug-macro
 cc1 gcc5_64 gcc -O2 -g -gdwarf-5 -gdwarf64
